@@ -66,6 +66,17 @@ def build_db(ft, lemmas, goal_variant):
         t = mmgen.apply('proof-rule-prop-1', fr, {'ph0': ph0, 'ph1': ph1}, [])
         st.append(('block', [('d', ('ph0', 'ph2')),
                              ('p', 'l6', (TH, IMP(ph0, IMP(ph1, ph0))), mmref.encode_compressed(t, mand(['ph0', 'ph1']), 'none'))]))
+    if 'L7' in lemmas:
+        # the proof goes through a DUMMY variable (ph2 occurs in no statement of the lemma): its floating hypothesis is not
+        # mandatory, so it is named in the proof's label list and the slice has to declare the variable for it
+        ph2 = V('ph2')
+        x = IMP(ph2, ph0)
+        t = mmgen.apply('proof-rule-mp', fr, {'ph0': IMP(ph0, x), 'ph1': IMP(ph0, ph0)}, [
+            mmgen.apply('proof-rule-mp', fr, {'ph0': IMP(ph0, IMP(x, ph0)), 'ph1': IMP(IMP(ph0, x), IMP(ph0, ph0))}, [
+                mmgen.apply('proof-rule-prop-2', fr, {'ph0': ph0, 'ph1': x, 'ph2': ph0}, []),
+                mmgen.apply('proof-rule-prop-1', fr, {'ph0': ph0, 'ph1': x}, [])]),
+            mmgen.apply('proof-rule-prop-1', fr, {'ph0': ph0, 'ph1': ph2}, [])])
+        st.append(('p', 'l7', (TH, IMP(ph0, ph0)), mmref.encode_compressed(t, mand(['ph0']), 'all')))
     _, fr = frames_of(st)
     # goal variants
     if goal_variant == 'refl' and 'L1' in lemmas:
@@ -92,6 +103,9 @@ def build_db(ft, lemmas, goal_variant):
     elif goal_variant == 'dvextra' and 'L6' in lemmas:
         target = IMP(c0, IMP(A('c1'), c0))
         t = mmgen.apply('l6', fr, {'ph0': c0, 'ph1': A('c1')}, [])
+    elif goal_variant == 'dummy' and 'L7' in lemmas:
+        target = IMP(c0, c0)
+        t = mmgen.apply('l7', fr, {'ph0': c0}, [])
     elif goal_variant == 'axiom':
         target = IMP(c0, A('c1'))
         t = ('ax-a', [])
@@ -107,9 +121,9 @@ def specs(thorough):
     orders = [(0, 1, 2), (2, 0, 1), (1, 2, 0)] if thorough else [(0, 1, 2), (1, 2, 0)]
     for o in orders:
         for notation in (False, True):
-            for k in range(0, 7 if thorough else 4):
-                for lem in itertools.combinations(('L1', 'L2', 'L3', 'L4', 'L5', 'L6'), k):
-                    for gv in ('refl', 'rule', 'both', 'dv', 'nested', 'notation', 'gdv', 'dvextra', 'axiom'):
+            for k in range(0, 8 if thorough else 4):
+                for lem in itertools.combinations(('L1', 'L2', 'L3', 'L4', 'L5', 'L6', 'L7'), k):
+                    for gv in ('refl', 'rule', 'both', 'dv', 'nested', 'notation', 'gdv', 'dvextra', 'dummy', 'axiom'):
                         out.append((o, notation, lem, gv))
     return out
 
@@ -202,7 +216,7 @@ def slices(db, desc, orig_model):
 
 
 def _kind(label):
-    return {'l1': 'plain', 'l2': 'essential', 'l3': 'disjoint', 'l4': 'nested', 'l5': 'global_dv', 'l6': 'dv_extra_var'}.get(label, 'goal')
+    return {'l1': 'plain', 'l2': 'essential', 'l3': 'disjoint', 'l4': 'nested', 'l5': 'global_dv', 'l6': 'dv_extra_var', 'l7': 'dummy_var'}.get(label, 'goal')
 
 
 def db_chunk(sps):
